@@ -438,18 +438,24 @@ func (w *world) doOp(c int, p op) {
 		}
 		w.begin(e)
 		err := w.idx.CreateSeriesListIfNotExists(keys, names, tags)
-		w.end(e)
 		if err != nil {
+			w.end(e)
 			r.Violate("C14:create-error", "create-error", "CreateSeriesListIfNotExists failed with no fault injected: %v", err)
 			return
 		}
-		for _, x := range list {
-			id := w.sf.SeriesID([]byte(x.name), x.mt, nil)
-			if id == 0 {
+		// the ids are looked up while the operation still counts as in flight: these calls can yield to the
+		// other clients, and the model must change in one piece
+		ids := make([]uint64, len(list))
+		for i, x := range list {
+			ids[i] = w.sf.SeriesID([]byte(x.name), x.mt, nil)
+		}
+		w.end(e)
+		for i, x := range list {
+			if ids[i] == 0 {
 				r.Violate("C14:create-error", "no-series-id", "series %q was created in the index but the series file has no id for it", x.key)
 				return
 			}
-			w.live[x.key] = id
+			w.live[x.key] = ids[i]
 			delete(w.linger, x.key)
 		}
 		w.meas[name] = true
@@ -542,13 +548,16 @@ func (w *world) doOp(c int, p op) {
 			if raw {
 				w.rawDropped[k] = true
 			}
-			if p.X {
-				w.sf.DeleteSeriesID(ids[k], tsdb.Flush)
-			} else {
+			if !p.X {
 				w.linger[k] = true
 			}
 		}
 		delete(w.meas, name)
+		if p.X { // the model is up to date before the series file is touched (crash cuts)
+			for _, k := range e.delKeys {
+				w.sf.DeleteSeriesID(ids[k], tsdb.Flush)
+			}
+		}
 		r.Logf("%s drop measurement %s (%d series) raw=%v sfile=%v", who, name, len(e.delKeys), raw, p.X)
 		r.Probe("probe_measurement_drops")
 		if raw && len(e.delKeys) > 0 {
@@ -1001,6 +1010,13 @@ func (w *world) hook(f *simfs.FS, ev *simfs.Event) error {
 		kind = "torn-" + kind
 	}
 	w.images = append(w.images, image{dir: dst, ev: fmt.Sprintf("%s tear=%d", ev, tear), kind: kind, sn: w.snapshot()})
+	if os.Getenv("DSIM_DEBUG") != "" {
+		sn := w.images[len(w.images)-1].sn
+		r.Logf("CUT img%d at [%s tear=%d] inflight=%d req=%d strict=%d alw=%d reqMeas=%v alwMeas=%v", len(w.images)-1, ev, tear, len(w.inflight), len(sn.req), len(sn.strict), len(sn.alw), sn.reqMeas, sn.alwMeas)
+		for _, e := range w.inflight {
+			r.Logf("   in flight: add=%v del=%v addMeas=%v delMeas=%v", e.addKeys, e.delKeys, e.addMeas, e.delMeas)
+		}
+	}
 	r.Probe("fault_crash_m1")
 	r.Probe("probe_cut_" + strings.ReplaceAll(kind, ":", "_"))
 	if tear > 0 {
